@@ -2,6 +2,7 @@ package rules
 
 import (
 	"fmt"
+	"go/token"
 	"go/types"
 	"strings"
 
@@ -48,7 +49,59 @@ func txClosures(p *core.Program) map[*ssa.Function]ssa.CallInstruction {
 			})
 		}
 	}
+	// helpers the body of a literal was extracted into: a function with a context parameter
+	// every live call of which is a static call inside a transaction literal (or inside such a
+	// helper) that passes a context derived from the literal's own ctx. It runs in the
+	// caller's transaction on every call, so it is treated like the literal itself.
+	kg := p.KG()
+	live, _ := kg.Live()
+	for changed := true; changed; {
+		changed = false
+		for _, fn := range p.KetoFuncs(sqlPkgRel) {
+			if _, done := out[fn]; done || fn.Parent() != nil || txCtx(fn) == nil || isMigrationOrTestHelper(fn) {
+				continue
+			}
+			idx := -1
+			for i, par := range fn.Params {
+				if par == txCtx(fn) {
+					idx = i
+				}
+			}
+			n, all := 0, true
+			var first ssa.CallInstruction
+			for _, e := range kg.In[fn] {
+				if !live[e.Caller] || p.IsTestFile(e.Site.Pos()) {
+					continue
+				}
+				n++
+				ci, isCall := e.Site.(ssa.CallInstruction)
+				lit := enclosingTx(e.Caller, out)
+				if e.Kind != "static" || !isCall || lit == nil || idx >= len(ci.Common().Args) || !ctxDerivedFrom(ci.Common().Args[idx], txCtx(lit), 0) {
+					all = false
+					break
+				}
+				if first == nil {
+					first = ci
+				}
+			}
+			if n > 0 && all {
+				out[fn] = first
+				changed = true
+			}
+		}
+	}
 	return out
+}
+
+// txCtx: the context parameter of a transaction literal or helper (the first parameter of
+// type context.Context).
+func txCtx(fn *ssa.Function) *ssa.Parameter {
+	for _, par := range fn.Params {
+		if core.IsNamed(par.Type(), "context", "Context") {
+			return par
+		}
+	}
+	return nil
 }
 
 // enclosingTx returns the transaction literal fn is (nested in), or nil.
@@ -137,10 +190,7 @@ func runC05(c *Ctx) {
 		}
 		// R05.2 (connection): the statement's chain root is Connection(ctx')/queryWithNetwork(ctx') inside the literal on the literal's ctx
 		root, _ := popChainRoot(s.Call.Common().Args[0])
-		ctxPar := ssa.Value(etx.Params[0])
-		if len(etx.FreeVars) > 0 || true {
-			ctxPar = etx.Params[0]
-		}
+		ctxPar := ssa.Value(txCtx(etx))
 		okConn, why := false, "cannot find where the statement's connection comes from"
 		if root != nil {
 			cur := root
@@ -195,6 +245,26 @@ func runC05(c *Ctx) {
 			"the statement runs on Connection(ctx) obtained inside the literal from the literal's own ctx", why)
 	}
 	r.Floor("R05.1", 4, "tuple INSERT, tuple DELETE, delete-by-query, mapping INSERT")
+	// a function of the package that calls a writing function writes as well (the statement
+	// may have been extracted into a helper)
+	for changed := true; changed; {
+		changed = false
+		for _, fn := range p.KetoFuncs(sqlPkgRel) {
+			if fn.Parent() != nil || writeOps[fn] || isMigrationOrTestHelper(fn) {
+				continue
+			}
+			for _, g := range core.Closures(fn) {
+				core.Instrs(g, func(_ *ssa.BasicBlock, _ int, ins ssa.Instruction) {
+					if ci, ok := ins.(ssa.CallInstruction); ok {
+						if sc := ci.Common().StaticCallee(); sc != nil && writeOps[sc] && !writeOps[fn] {
+							writeOps[fn] = true
+							changed = true
+						}
+					}
+				})
+			}
+		}
+	}
 
 	// R05.2 (contexts): every context argument inside a transaction literal derives from its ctx
 	for f := range tx {
@@ -213,11 +283,11 @@ func runC05(c *Ctx) {
 					if obj != nil {
 						cname = obj.Name()
 					}
-					ok2 := ctxDerivedFrom(a, f.Params[0], 0)
+					ok2 := ctxDerivedFrom(a, txCtx(f), 0)
 					// a nested Transaction literal's own ctx is fine as well
 					if !ok2 {
 						if inner := enclosingTx(g, tx); inner != nil && inner != f {
-							ok2 = ctxDerivedFrom(a, inner.Params[0], 0)
+							ok2 = ctxDerivedFrom(a, txCtx(inner), 0)
 						}
 					}
 					r.Check(ok2, "R05.2", core.FuncName(g), "ctx passed to "+cname, p.Pos(ins.Pos()),
@@ -494,6 +564,10 @@ func inputTuplesCovered(c *Ctx, rule string, writeOps map[*ssa.Function]bool) {
 						if e == sl.High || core.ValueOrigin(e) == core.ValueOrigin(sl.High) {
 							continue
 						}
+						// an index window: lo += K with hi = min(lo+K, len(rs)) - the stride is the window size
+						if k, ok := plusConstOf(e, ph); ok && highIsWindow(sl.High, ph, k, isInput) {
+							continue
+						}
 						okTile = false
 					}
 					if okTile {
@@ -511,4 +585,47 @@ func inputTuplesCovered(c *Ctx, rule string, writeOps map[*ssa.Function]bool) {
 	if nIn < 2 {
 		r.Undecide(rule, "", "write functions with a tuple slice parameter", "", fmt.Sprintf("%d found (floor 2)", nIn))
 	}
+}
+
+// plusConstOf: v == base + K (either operand order) for an integer constant K > 0.
+func plusConstOf(v ssa.Value, base ssa.Value) (int64, bool) {
+	bo, ok := v.(*ssa.BinOp)
+	if !ok || bo.Op != token.ADD {
+		return 0, false
+	}
+	if bo.X == base {
+		if k, ok := core.IntConst(bo.Y); ok && k > 0 {
+			return k, true
+		}
+	}
+	if bo.Y == base {
+		if k, ok := core.IntConst(bo.X); ok && k > 0 {
+			return k, true
+		}
+	}
+	return 0, false
+}
+
+// highIsWindow: hi == min(lo+k, len(input)) (argument order free).
+func highIsWindow(hi ssa.Value, lo ssa.Value, k int64, isInput func(ssa.Value) bool) bool {
+	c, ok := hi.(*ssa.Call)
+	if !ok {
+		return false
+	}
+	bi, ok := c.Call.Value.(*ssa.Builtin)
+	if !ok || bi.Name() != "min" || len(c.Call.Args) != 2 {
+		return false
+	}
+	hasEnd, hasLen := false, false
+	for _, a := range c.Call.Args {
+		if k2, ok := plusConstOf(a, lo); ok && k2 == k {
+			hasEnd = true
+		}
+		if lc, ok := a.(*ssa.Call); ok {
+			if b2, ok := lc.Call.Value.(*ssa.Builtin); ok && b2.Name() == "len" && len(lc.Call.Args) == 1 && isInput(lc.Call.Args[0]) {
+				hasLen = true
+			}
+		}
+	}
+	return hasEnd && hasLen
 }
